@@ -7,6 +7,8 @@ import Prov.Json
 import Prov.JsonSpec
 import Prov.Xml
 import Prov.XmlSpec
+import Prov.ProvN
+import Prov.ProvNSpec
 
 open Lean
 namespace Driver
